@@ -460,6 +460,44 @@ def scanTable : List RowSet → List Nat → Option KeyRange → Out (List Row)
   | rs :: rest, cols, r =>
     (scanRowSet rs cols r).bind fun a => (scanTable rest cols r).map fun b => a ++ b
 
+/-- `scanBatches` keeping the chunk structure (one chunk per batch that is not skipped): what
+a MergeIterator's child iterator delivers -/
+def scanBatchesC (fc : Nat) (r : Option KeyRange) : List (List (Row × Bool)) → List (List Row)
+  | [] => []
+  | b :: bs =>
+    if b.all (fun x => !x.2) then scanBatchesC fc r bs
+    else
+      match r with
+      | none => liveRows b :: scanBatchesC fc r bs
+      | some rg =>
+        let lo := firstIdx (fun x => lowerOk rg.lo (Row.at x.1 fc)) b
+        let hi := firstIdx (fun x => upperBad rg.hi (Row.at x.1 fc)) b
+        let out := liveRows (sliceRange lo hi b)
+        if hi = 0 then [out] else out :: scanBatchesC fc r bs
+
+def scanRowSetC (rs : RowSet) (cols : List Nat) (r : Option KeyRange) : Out (List (List Row)) :=
+  (startRowid rs r).map fun s =>
+    let tagged := rs.tagged.drop s
+    scanBatchesC (cols.headD 0) r (splitBatches (cutPoints rs cols) (tagged.length + 1) s tagged)
+
+def collectOut {α} : List (Out α) → Out (List α)
+  | [] => .ok []
+  | x :: xs => x.bind fun a => (collectOut xs).map fun b => a :: b
+
+/-- executor/table_scan.rs since fix d36c2ac: for a table with sort-key (`is_primary`) columns on
+the secondary storage the executor appends the missing sort-key columns to the scan list and asks
+for `ScanOptions::with_sorted(true)`: one row-set is read as is, several are merged by
+MergeIterator on the sort key (the real heap of `Model/Heap.lean`); the extra columns are dropped
+from the output (rows stay table-width in the model). Unkeyed tables: ConcatIterator as before. -/
+def tableScan (primary : List Nat) (lay : List RowSet) (cols : List Nat) (r : Option KeyRange) : Out (List Row) :=
+  if primary.isEmpty || cols.isEmpty then scanTable lay cols r
+  else
+    let cols' := cols ++ primary.filter fun k => !cols.contains k
+    (collectOut (lay.map fun rs => scanRowSetC rs cols' r)).map fun streams =>
+      match streams with
+      | [s] => s.flatten
+      | _ => mergeHeap (keyCmp (ascKeys primary)) streams
+
 /-! ## Plans (the subset of the plan language the checks generate) -/
 
 inductive Plan where
@@ -511,13 +549,13 @@ def outCols : Plan → List Nat
 
 /-- What the executors compute.  Rows stay table-width (columns are referred to by identity);
 `outCols` is applied at the end. -/
-def execPlan (lay : List RowSet) : Plan → Out (List Row)
-  | .scan cols f => scanTable lay cols (keyRangeOfFilter f)
-  | .filter c p => (execPlan lay p).map fun rows => rows.filter (keepRow c)
-  | .proj _ p => execPlan lay p
-  | .order ks p => (execPlan lay p).map fun rows => sortL (keyCmp ks) rows
-  | .limit n m p => (execPlan lay p).map fun rows => limitExec n m [rows]
-  | .topn n m ks p => (execPlan lay p).bind fun rows => topnExec (keyCmp ks) n m rows
+def execPlan (t : TableMeta) (lay : List RowSet) : Plan → Out (List Row)
+  | .scan cols f => tableScan t.primary lay cols (keyRangeOfFilter f)
+  | .filter c p => (execPlan t lay p).map fun rows => rows.filter (keepRow c)
+  | .proj _ p => execPlan t lay p
+  | .order ks p => (execPlan t lay p).map fun rows => sortL (keyCmp ks) rows
+  | .limit n m p => (execPlan t lay p).map fun rows => limitExec n m [rows]
+  | .topn n m ks p => (execPlan t lay p).bind fun rows => topnExec (keyCmp ks) n m rows
   | .empty _ => .ok []
 
 /-- What the query means: scans return the table's visible rows (as a bag; the order is the
